@@ -22,6 +22,8 @@ def report(c, cond, label, sig=None, kind="ssa"):
         from .common import model_env
         sy = {k: v for k, v in getattr(c, "scale_syms", {}).items()}
         c.failures[-1]["replay"] = {"kind": kind, "values": model_env(c, c.failures[-1]["model"], sy)}
+        if label.startswith("[") and (label[1:label.index("]")].endswith("init") or label[1:label.index("]")] == "model-untouched"):
+            c.failures[-1]["replay"]["facet"] = "reuse"
     return ok
 
 
@@ -54,6 +56,46 @@ def _queue_total(q, D, S, R, C):
             for i in range(S):
                 tot[i] = tot[i] + q.queue[r, col] * D[i, r]
     return tot
+
+
+def _feasible(c, L, x_eff, a, U, D, S, R, K, q=None, tot_pre=None, C=None):
+    """oracle-free consequence of the step relation: whatever the waiting-time / choice law, the state (plus the deliveries
+    still queued, in the delay loops) is unchanged or changes by the total stoichiometry of ONE reaction with positive rate"""
+    xp = [L["c_current_state"][i] for i in range(S)]
+    if q is None:
+        def bal(delta):
+            return s_and(*[xp[i] == x_eff[i] + delta[i] for i in range(S)])
+    else:
+        tot_post = _queue_total(q, D, S, R, C)
+
+        def bal(delta):
+            return s_and(*[xp[i] + tot_post[i] == x_eff[i] + tot_pre[i] + delta[i] for i in range(S)])
+    stay = bal([0] * S)
+    moves = [s_and(a[j] > 0, bal([U[i, j] + D[i, j] for i in range(S)])) for j in range(R)]
+    report(c, s_or(stay, *moves), "[feasible] %s loop: the state%s is unchanged or changes by the net (immediate + delayed) stoichiometry of "
+           "one reaction whose propensity is positive" % (K, "" if q is None else " plus the deliveries still queued"),
+           "%s infeasible move" % K, K)
+    if _sum(a) == 0:
+        report(c, stay, "[absorbing] %s loop: with total propensity zero no reaction fires" % K, "%s absorbing state left" % K, K)
+
+
+def _record(c, L, grid, ci, T, S, x_eff, res0, K, V=None, vt0=None):
+    """oracle-free: rows written in this iteration = grid times up to the new clock, holding the rule-updated pre-reaction
+    state (and the current volume); other rows untouched"""
+    ci_a = L["current_index"]
+    if is_sym(ci_a):
+        return
+    rec = [ci <= ci_a, ci_a <= T]
+    for r in range(T):
+        hit = ci <= r < ci_a
+        for i in range(S):
+            rec.append(L["c_results"][r, i] == (x_eff[i] if hit else res0[r, i]))
+        if vt0 is not None:
+            rec.append(L["c_volume_trace"][r] == (V if hit else vt0[r]))
+    rec += [grid[r] <= L["current_time"] for r in range(ci, min(ci_a, T))]
+    report(c, s_and(*rec), "[record] %s loop: the rows written in this iteration are the grid times up to the new clock and hold the "
+           "rule-updated state before this iteration's event%s; no other row is touched" % (K, "" if vt0 is None else " and the current volume"),
+           "%s row recording" % K, K)
 
 
 class AbsVolume:
@@ -161,6 +203,8 @@ def delay_step(interp, c, case, facets=None, rules=False):
            "[rules] rules and propensities see the current state, time and rule_step (delay loop)", kind=K)
     Lam = _sum(a)
     c.scale_syms = {"Lam": Lam, "dt": dt}          # the counterexample's own scale, for the replay battery
+    _feasible(c, L, x_eff, a, U, D, S, R, K, q=q, tot_pre=tot_pre, C=C)
+    _record(c, L, grid, ci, T, S, x_eff, res0, K)
     draws = list(c.draws)
     if Lam == 0:
         fired, prop, rs_new = False, grid[ci], 1
@@ -235,6 +279,10 @@ def delay_step(interp, c, case, facets=None, rules=False):
            "[step] delay loop: race between next reaction, next grid time and next queue slot; rows record the pre-update "
            "state; a firing applies the immediate part now and either queues one unit at t+delay (delay > 0) or applies "
            "the delayed part now; a queue step applies the due column and advances the queue", "delay step relation", K)
+    # from here on the obligations are stated against the loop's own new row index (they must not inherit a verdict
+    # on the sampling law from the oracle above)
+    if not is_sym(L["current_index"]):
+        ci_new = L["current_index"]
     tot_post = _queue_total(q, D, S, R, C)
     report(c, s_and(*[L["c_current_state"][i] + tot_post[i] == x_eff[i] + tot_pre[i] + ghost_delta[i] for i in range(S)]),
            "[conservation] state + queued deliveries changes by exactly (immediate + delayed) stoichiometry of the fired "
@@ -353,6 +401,8 @@ def volume_step(interp, c, case, vol_factory=None, facets=None, rules=False, ali
            "[rules] volume rules and volume-scaled propensities see the current state, time and CURRENT volume", kind=K)
     Lam = _sum(a)
     c.scale_syms = {"Lam": Lam, "dt": dt}          # the counterexample's own scale, for the replay battery
+    _feasible(c, L, x_eff, a, U, D, S, R, K)
+    _record(c, L, grid, ci, T, S, x_eff, res0, K, V=V, vt0=vt0)
     draws = list(c.draws)
     if Lam == 0:
         fired, prop, rs_new, move = False, grid[ci], 1, False
@@ -425,6 +475,10 @@ def volume_step(interp, c, case, vol_factory=None, facets=None, rules=False, ali
            "[step] volume loop: race between next reaction and next volume step; rows record the pre-update state and the "
            "current volume; a volume step adds get_volume_step(state, t', V, dt) and asks cell_divided; a firing adds the "
            "net stoichiometry of the reaction bracketed by u*Lambda", "volume step relation", K)
+    # from here on the obligations are stated against the loop's own new row index (they must not inherit a verdict
+    # on the sampling law from the oracle above)
+    if not is_sym(L["current_index"]):
+        ci_new = L["current_index"]
     # growth-law clock: every volume step accounts for exactly one dt of the volume clock
     if move:
         report(c, s_and(t_new == nqt, nqt_new == nqt + dt),
@@ -540,6 +594,8 @@ def delay_volume_step(interp, c, case, facets=None):
            "(delay+volume loop)", kind=K)
     Lam = _sum(a)
     c.scale_syms = {"Lam": Lam, "dt": dt}          # the counterexample's own scale, for the replay battery
+    _feasible(c, L, x_eff, a, U, D, S, R, K, q=q, tot_pre=tot_pre, C=C)
+    _record(c, L, grid, ci, T, S, x_eff, res0, K, V=V, vt0=vt0)
     draws = list(c.draws)
     if Lam == 0:
         prop = grid[ci]
@@ -611,6 +667,10 @@ def delay_volume_step(interp, c, case, facets=None):
                 post_ok.append(q.queue[r, col] == (0 if col == start else q0[r, col]))
     report(c, s_and(*post_ok), "[step] delay+volume loop: three-way race (reaction / volume step / queue slot) with recording of "
                                "pre-update state and current volume", "delay-volume step relation", K)
+    # from here on the obligations are stated against the loop's own new row index (they must not inherit a verdict
+    # on the sampling law from the oracle above)
+    if not is_sym(L["current_index"]):
+        ci_new = L["current_index"]
     tot_post = _queue_total(q, D, S, R, C)
     report(c, s_and(*[L["c_current_state"][i] + tot_post[i] == x_eff[i] + tot_pre[i] + ghost_delta[i] for i in range(S)]),
            "[conservation] delay+volume loop: state + queued deliveries changes exactly by the fired reaction's total "
